@@ -4,6 +4,7 @@ package main
 
 import (
 	"fmt"
+	"go/token"
 	"go/types"
 	"sort"
 	"strings"
@@ -56,11 +57,58 @@ func ruleGlobalRO(w *World, r *RuleResult) {
 		}
 		return nil
 	}
+	// refOfGlobal: v is a reference (slice, map, pointer, channel) to storage a package-level
+	// variable of the library owns: the loaded value of such a variable, or a slice of it
+	var refOfGlobal func(v ssa.Value, depth int) *ssa.Global
+	refOfGlobal = func(v ssa.Value, depth int) *ssa.Global {
+		if depth > 4 {
+			return nil
+		}
+		switch x := v.(type) {
+		case *ssa.UnOp:
+			if g, ok := x.X.(*ssa.Global); ok && x.Op == token.MUL && g.Pkg == w.SLib {
+				switch g.Type().(*types.Pointer).Elem().Underlying().(type) {
+				case *types.Slice, *types.Map, *types.Pointer, *types.Chan:
+					return g
+				}
+			}
+		case *ssa.Slice:
+			if g, ok := x.X.(*ssa.Global); ok && g.Pkg == w.SLib {
+				return g
+			}
+			return refOfGlobal(x.X, depth+1)
+		case *ssa.ChangeType:
+			return refOfGlobal(x.X, depth+1)
+		}
+		return nil
+	}
 	for _, fn := range libFuncs(w) {
+		if fn.Name() == "init" && fn.Synthetic != "" {
+			continue
+		}
 		for _, b := range fn.Blocks {
 			for _, in := range b.Instrs {
 				switch x := in.(type) {
+				case *ssa.Return:
+					for _, rv := range x.Results {
+						if g := refOfGlobal(rv, 0); g != nil {
+							writers[g.Name()] = append(writers[g.Name()], use{fn, w.Pos(instrPos(in)), "a reference to its storage is returned: the receiver can write through it"})
+						}
+					}
+				}
+				if ci, ok := in.(ssa.CallInstruction); ok {
+					c := ci.Common()
+					if bi, ok := c.Value.(*ssa.Builtin); ok && bi.Name() == "append" && len(c.Args) > 0 {
+						if g := refOfGlobal(c.Args[0], 0); g != nil {
+							writers[g.Name()] = append(writers[g.Name()], use{fn, w.Pos(instrPos(in)), "append to it: spare capacity of the shared array is written"})
+						}
+					}
+				}
+				switch x := in.(type) {
 				case *ssa.Store:
+					if g := refOfGlobal(x.Val, 0); g != nil {
+						writers[g.Name()] = append(writers[g.Name()], use{fn, w.Pos(instrPos(in)), "a reference to its storage is stored elsewhere: every holder of that copy shares the array (an append within its capacity, or an element store, writes it)"})
+					}
 					if g := rootGlobal(x.Addr, 0); g != nil && g.Pkg == w.SLib {
 						writers[g.Name()] = append(writers[g.Name()], use{fn, w.Pos(instrPos(in)), "store"})
 					}
@@ -514,6 +562,29 @@ func ruleWireListing(w *World, r *RuleResult) {
 	}
 	signedFn := map[string]bool{}
 	nLines := 0
+	// every iteration over the code formats its line from the instruction at that index (a line
+	// taken from somewhere else — a cache keyed by the instruction, say — carries another line's label)
+	for _, p := range paths {
+		if p.End != "backedge" {
+			continue
+		}
+		overCode, formats := false, false
+		for i := range p.Events {
+			e := &p.Events[i]
+			if (e.Kind == "index" || e.Kind == "load") && len(e.Args) > 0 && isCodeList(w, fn, e.Args[0], 0) {
+				overCode = true
+			}
+			if e.Kind == "load" && e.LV != nil && e.LV.Op == "elem" && isCodeList(w, fn, e.LV.A[0], 0) {
+				overCode = true
+			}
+			if e.Kind == "call" && e.Callee != nil && (fnKey(e.Callee) == "fmt.Sprintf" || fnKey(e.Callee) == "fmt.Fprintf") {
+				formats = true
+			}
+		}
+		if overCode {
+			d.add(formats, "line/formatted-here", pos, "every iteration over the code formats its own line", "an iteration over the warrior's code emits a line without formatting it from the instruction at that index (a remembered line is reused): the START label and the operands of another line are printed")
+		}
+	}
 	for _, p := range paths {
 		legacy, known := legacyOf(p)
 		for i := range p.Events {
